@@ -1,5 +1,6 @@
 """C15 — language-server diagnostics converge to a from-scratch workspace lint."""
 import re
+from . import core
 
 PID = "C15"
 LEVEL = "proof"
@@ -179,6 +180,7 @@ def stale_workspaces(c, limit=12):
 
 def run(ctx):
     rng = ctx.rng()
+    guarded_store_facts(ctx)
     cases = [gen_history(rng, k) for k in range(16 if ctx.quick else 300)]
     # directed: delete / rename-away a package that another (parseable) file imports
     for kind in ("delete", "rename"):
@@ -227,7 +229,51 @@ def run(ctx):
         files = {"ignored/f0.rego": content(0, [2, 3], 0), "p1/f1.rego": content(1, [], 1), "p2/f2.rego": content(2, [1], 0),
                  ".regal/config.yaml": CFG3 if rep % 2 else CFG}
         cases.append({"id": len(cases), "op": "lsp.history", "files": files, "events": [], "_strict": True})
-    impl = ctx.impl(cases, timeout=3000, procs=6)
+    evaluate(ctx, cases)
+
+
+def guarded_store_facts(ctx):
+    """tie of the LspCache model's one-step "re-check and store" (and of the publication order) to the code: the
+    stores of parse / lint results are inside cache.IfPresent closures, Delete / Rename / IfPresent share a lock,
+    sendFileDiagnostics is serialized (facts.lspstores ~ facts/c15_guarded_stores.json)"""
+    import json as _json, os
+    got = ctx.impl([{"id": 0, "op": "facts.lspstores"}])[0].get("out")
+    base = _json.load(open(os.path.join(core.VERIF, "facts", "c15_guarded_stores.json")))["facts"]
+    ctx.seen({"facts.lspstores": len(got or [])}, ("facts.lspstores",))
+    if got != base:
+        ctx.brk("internal/lsp stores of parse / lint results ~ facts/c15_guarded_stores.json (the model's step re-checks "
+                "and stores atomically: cache.IfPresent under the lock of Delete; publications are serialized)",
+                {"op": "facts.lspstores"},
+                {"new": [x for x in (got or []) if x not in base], "gone": [x for x in base if x not in (got or [])]}, None)
+
+
+def search(ctx):
+    """an obligation or a tie broke (e.g. a store of lint results that is no longer atomic with the deletion of its
+    file) and the regular histories found no failing one: sweep the pause between an edit and the removal of the
+    same file across the duration of a lint, with and without a workspace job in flight, under more parallel load"""
+    cases = []
+    for rep in range(2):
+        for pause in range(0, 520, 13):
+            files = {"p0/f0.rego": content(0, [1], 0), "p1/f1.rego": content(1, [], 1), "p2/f2.rego": content(2, [1], 0),
+                     ".regal/config.yaml": CFG}
+            evs = [{"kind": "change", "file": "p1/f1.rego", "text": content(1, [], 2), "pauseMs": pause}]
+            if rep:
+                evs.append({"kind": "rename", "file": "p1/f1.rego", "to": "p1/g1.rego", "pauseMs": 0})
+            else:
+                evs.append({"kind": "delete", "file": "p1/f1.rego", "pauseMs": 0})
+            cases.append({"id": len(cases), "op": "lsp.history", "files": files, "events": evs, "_strict": True})
+    for pause in range(0, 400, 20):
+        files = {"p0/f0.rego": content(0, [2], 0), "p1/f1.rego": content(1, [2, 3], 0), "p2/f2.rego": content(2, [0], 0),
+                 "p3/f3.rego": content(3, [0, 2], 0), ".regal/config.yaml": CFG}
+        evs = [{"kind": "delete", "file": "p2/f2.rego", "pauseMs": pause},
+               {"kind": "change", "file": "p0/f0.rego", "text": content(0, [2], 1), "pauseMs": 0},
+               {"kind": "rename", "file": "p0/f0.rego", "to": "p0/f0_r.rego", "pauseMs": 0}]
+        cases.append({"id": len(cases), "op": "lsp.history", "files": files, "events": evs, "_strict": True})
+    evaluate(ctx, cases, procs=12)
+
+
+def evaluate(ctx, cases, procs=6):
+    impl = ctx.impl(cases, timeout=3000, procs=procs)
     pending = []
     orphaned = []
     for c in cases:
